@@ -96,6 +96,21 @@ def generate(ctx):
             else:
                 ops.append([nm] + [r.choice(univ) for _ in range(r.randint(0, 4))])
         yield {'cls': r.choice(['OrderedSet', 'QuerySet']), 'level': 'ptr', 'ops': ops}
+    # D-only: "replace the visited element" (removal of the visited element + addition of a fresh one inside the loop body)
+    rngr = ctx.rng.fork('rmadd')
+    for i in range(ctx.pick(400, 6000)):
+        r = rngr.fork(i)
+        univ = U if r.random() < 0.5 else big
+        ops = [['add', k] for k in r.sample(univ, r.randint(1, len(univ)))]
+        for _ in range(r.randint(1, 12)):
+            nm = r.choice(['add', 'discard', 'iter-rm-add', 'riter-rm-add', 'iter-rm-add', 'iter-rm', 'pop-first'])
+            if nm in ('add', 'discard'):
+                ops.append([nm, r.choice(univ)])
+            elif nm == 'pop-first':
+                ops.append([nm])
+            else:
+                ops.append([nm] + [r.choice(univ) for _ in range(r.randint(1, 4))])
+        yield {'cls': r.choice(['OrderedSet', 'QuerySet']), 'level': 'abs', 'ops': ops, 'fam': 'rmadd'}
     # D-only: operands whose containment test differs from what they yield (str: substring test), string elements
     pool = ['a', 'ab', 'abc', 'x', 'b', '']
     for cls in ('OrderedSet', 'QuerySet'):
@@ -360,6 +375,34 @@ def run_impl(case):
                 if res != [(k in bset) for k in args]:
                     fail('membership', 'in gave %r on %r' % (res, before))
                 expect = bset
+            elif nm in ('iter-rm-add', 'riter-rm-add'):
+                # D only ("replace the visited element"): the consumer removes the visited element AND adds a fresh one before
+                # the iterator advances; every ORIGINAL element is still visited exactly once, in order (a fresh element is
+                # appended behind: a forward walk may or may not reach it, a backward walk never does)
+                visited, added = [], []
+                fresh = 1000 + 10 * len(obs)
+                back = nm == 'riter-rm-add'
+                try:
+                    for x in (reversed(s) if back else s):
+                        visited.append(x)
+                        if x in args and x < 1000 and len(added) < 4:
+                            s.discard(x)
+                            s.add(fresh + len(added))
+                            added.append(fresh + len(added))
+                        if len(visited) > 3 * (len(before) + 5):
+                            break
+                except Exception as e:
+                    fail('iter-remove-raises', 'iteration that replaces the visited element raised %s: %s after visiting %r'
+                         % (type(e).__name__, e, visited))
+                orig = [v for v in visited if v in bset]
+                if orig != (before[::-1] if back else before):
+                    fail('iter-remove-current', '%siteration that removes the visited element and adds a fresh one visited the '
+                         'original elements %r, the set held %r' % ('REVERSE ' if back else '', orig, before))
+                res = []
+                gone = set(list(x for x in visited if x in args and x < 1000)[:len(added)])
+                expect = (bset - gone) | set(added)
+                oracle = [k for k in oracle if k in expect] + added
+                nontrivial |= (reached2 and bool(added))
             elif nm == 'riter-rm':
                 # the same walking BACKWARDS (reversed(s)): every element is visited once, in reverse order
                 visited = []
@@ -444,6 +487,8 @@ def _norm(x):
 
 
 def model_line(case):
+    if case.get('fam') == 'rmadd':
+        return None            # D only: the models have no loop body that adds
     head = 'osetp' if case['level'] == 'ptr' else 'oset'
     # a rejected in-place union has taken in the elements its operand yielded before failing: for the model it is that union;
     # a backward iteration with removal visits the same elements and leaves the same set as the forward one: on the abstract
